@@ -39,8 +39,9 @@ impl<TId, TValue> Arena<TId, TValue> {
 #[verifier::external_body]
 #[verifier::reject_recursive_types(K)]
 #[verifier::reject_recursive_types(V)]
-pub struct FrozenMap<K, V> { _p: core::marker::PhantomData<(K, V)> }
-impl<K, V> FrozenMap<K, V> {
+#[verifier::reject_recursive_types(S)]
+pub struct FrozenMap<K, V, S = ()> { _p: core::marker::PhantomData<(K, V, S)> }
+impl<K, V, S> FrozenMap<K, V, S> {
     pub uninterp spec fn spec_get(&self, k: K) -> Option<V>;
     #[verifier::external_body]
     pub fn get(&self, k: &K) -> (r: Option<&V>)
@@ -50,5 +51,11 @@ impl<K, V> FrozenMap<K, V> {
     #[verifier::external_body]
     pub fn insert(&self, k: K, v: V) -> (r: &V)
         ensures *r == v,
+    { unimplemented!() }
+    /// `map[&k]` (rule R8frozenindex): panics when the key is absent
+    #[verifier::external_body]
+    pub fn vindex(&self, k: &K) -> (r: &V)
+        requires self.spec_get(*k) is Some,
+        ensures *r == self.spec_get(*k).unwrap(),
     { unimplemented!() }
 }
